@@ -419,7 +419,91 @@ def extract_timeouts(repo, parents):
     return L
 
 
-SECTIONS = [extract_models, extract_pool, extract_timeouts]
+# ---------------------------------------------------------------------------------------------
+# C10: the scheme tests that select the connection kind and decide about TLS
+# ---------------------------------------------------------------------------------------------
+
+def _scheme_test(node, subject):
+    """`<subject> == b"x"` or `<subject> in (b"x", b"y")` -> list of bytes"""
+    if isinstance(node, ast.Compare) and len(node.ops) == 1 and ast.unparse(node.left) == subject:
+        c = node.comparators[0]
+        if isinstance(node.ops[0], ast.Eq) and isinstance(c, ast.Constant) and isinstance(c.value, bytes):
+            return [c.value]
+        if isinstance(node.ops[0], ast.In) and isinstance(c, (ast.Tuple, ast.List)) and all(isinstance(e, ast.Constant) and isinstance(e.value, bytes) for e in c.elts):
+            return [e.value for e in c.elts]
+    return None
+
+
+def _find_scheme_tests(fn, subject):
+    out = []
+    for n in ast.walk(fn):
+        if isinstance(n, ast.Compare):
+            r = _scheme_test(n, subject)
+            if r is not None:
+                out.append((n, r))
+    return out
+
+
+def _guards_start_tls(fn, subject):
+    """the scheme test guarding the (single) start_tls call of fn; None if the call is unconditional"""
+    calls = [n for n in ast.walk(fn) if isinstance(n, ast.Call) and isinstance(n.func, ast.Attribute) and n.func.attr == "start_tls"]
+    if len(calls) != 1:
+        raise ExtractError(f"{fn.name}: expected exactly one start_tls call")
+    call = calls[0]
+    guards = []
+    for n in ast.walk(fn):
+        if isinstance(n, ast.If) and any(c is call for b in n.body for c in ast.walk(b)):
+            r = _scheme_test(n.test, subject)
+            if r is None:
+                # tests that are not about the scheme ("not yet connected") are allowed only in this known form
+                if ast.unparse(n.test) not in ("self._connection is None", "not self._connected", "self._uds is None"):
+                    raise ExtractError(f"{fn.name}: start_tls is guarded by a test that is not understood: {ast.unparse(n.test)}")
+                continue
+            guards.append(r)
+    if len(guards) > 1:
+        raise ExtractError(f"{fn.name}: start_tls is guarded by several scheme tests")
+    return guards[0] if guards else None
+
+
+def extract_schemes(repo, parents):
+    L = []
+    conn = _parse(repo, "httpcore/_async/connection.py")
+    g = _guards_start_tls(_find_func(conn, "_connect", cls="AsyncHTTPConnection"), "self._origin.scheme")
+    if g is None:
+        raise ExtractError("_connect: start_tls is not guarded by a scheme test")
+    L.append("/-- direct connections: TLS iff the origin scheme is one of these -/")
+    L.append("def directTlsSchemes : List Bytes := " + lean_list(lean_bytes(b) for b in g))
+    pool = _parse(repo, "httpcore/_async/connection_pool.py")
+    cc = _find_func(pool, "create_connection", cls="AsyncConnectionPool")
+    socks = _find_scheme_tests(cc, "self._proxy.url.scheme")
+    fwd = _find_scheme_tests(cc, "origin.scheme")
+    if len(socks) != 1 or len(fwd) != 1:
+        raise ExtractError("create_connection: expected one proxy-scheme test and one origin-scheme test")
+    L.append("/-- proxy URL schemes that select a SOCKS5 connection -/")
+    L.append("def socksProxySchemes : List Bytes := " + lean_list(lean_bytes(b) for b in socks[0][1]))
+    L.append("/-- origin schemes that are *forwarded* through an HTTP proxy (all others are tunnelled with CONNECT) -/")
+    L.append("def forwardSchemes : List Bytes := " + lean_list(lean_bytes(b) for b in fwd[0][1]))
+    sp = _parse(repo, "httpcore/_async/socks_proxy.py")
+    g = _guards_start_tls(_find_func(sp, "handle_async_request", cls="AsyncSocks5Connection"), "self._remote_origin.scheme")
+    if g is None:
+        raise ExtractError("socks: start_tls is not guarded by a scheme test")
+    L.append("/-- SOCKS5 connections: TLS iff the origin scheme is one of these -/")
+    L.append("def socksTlsSchemes : List Bytes := " + lean_list(lean_bytes(b) for b in g))
+    hp = _parse(repo, "httpcore/_async/http_proxy.py")
+    g = _guards_start_tls(_find_func(hp, "handle_async_request", cls="AsyncTunnelHTTPConnection"), "self._remote_origin.scheme")
+    L.append("/-- CONNECT tunnels: `none` = the stream is always upgraded to TLS; `some l` = iff the origin scheme is in `l` -/")
+    L.append("def tunnelTlsSchemes : Option (List Bytes) := " + ("none" if g is None else "some " + lean_list(lean_bytes(b) for b in g)))
+    # supported schemes test in the pool
+    har = _find_func(pool, "handle_async_request", cls="AsyncConnectionPool")
+    sup = [n for n in ast.walk(har) if isinstance(n, ast.Compare) and isinstance(n.ops[0], ast.NotIn) and ast.unparse(n.left) == "scheme"]
+    if len(sup) != 1 or not isinstance(sup[0].comparators[0], (ast.Tuple, ast.List)):
+        raise ExtractError("pool.handle_async_request: `scheme not in (...)` not found")
+    L.append("/-- schemes the pool accepts -/")
+    L.append("def supportedSchemes : List Bytes := " + lean_list(lean_bytes(e.value.encode()) for e in sup[0].comparators[0].elts))
+    return L
+
+
+SECTIONS = [extract_models, extract_pool, extract_timeouts, extract_schemes]
 
 
 def generate(repo):
